@@ -144,3 +144,116 @@ def repo_file_hashes(files):
         except OSError:
             out[f] = "missing"
     return out
+
+
+# ------------------------------------------------------------------------------------------------
+# public-kernel frames (C15b, wrapper level): the callables returned by the gen_* functions are Python
+# wrappers around one or several compiled kernels.  While LOG_CALLS is on, every call of such a wrapper
+# records the memory extent of each array argument and which entries of CALL_LOG it produced.
+# ------------------------------------------------------------------------------------------------
+PUBLIC_FRAMES: list = []
+_PATCHED: dict = {}
+
+
+def extent_of(arr):
+    """(id of the typed root buffer, element offset, element strides, shape) - the memory model of interp.Mem"""
+    from .interp import true_root
+
+    root = true_root(arr)
+    isz = arr.itemsize
+    off = (arr.__array_interface__["data"][0] - root.__array_interface__["data"][0]) // isz
+    return (id(root), int(off), tuple(int(s // isz) for s in arr.strides), tuple(int(n) for n in arr.shape))
+
+
+class PublicKernel:
+    def __init__(self, fn, name):
+        self.fn, self.name = fn, name
+        self.__name__ = getattr(fn, "__name__", name)
+        self.__doc__ = getattr(fn, "__doc__", None)
+
+    def __call__(self, *a, **k):
+        if DEALIAS_COMPARE[0]:
+            return self._call_compare(*a, **k)
+        if not LOG_CALLS[0]:
+            return self.fn(*a, **k)
+        import inspect
+
+        try:
+            bound = inspect.signature(self.fn).bind(*a, **k).arguments
+        except (TypeError, ValueError):
+            bound = dict(k)
+        params = {n: extent_of(v) for n, v in bound.items() if isinstance(v, np.ndarray) and v.size}
+        frame = {"name": self.name, "params": params, "first": len(CALL_LOG)}
+        try:
+            return self.fn(*a, **k)
+        finally:
+            frame["last"] = len(CALL_LOG)
+            PUBLIC_FRAMES.append(frame)
+
+    def _call_compare(self, *a, **k):
+        """replay aid (numeric build): when two array arguments share memory, run the wrapper also on de-aliased
+        copies; the call is a demonstrated hazard when an output differs between the two runs"""
+        import inspect
+
+        try:
+            ba = inspect.signature(self.fn).bind(*a, **k)
+        except (TypeError, ValueError):
+            return self.fn(*a, **k)
+        arrs = {n: v for n, v in ba.arguments.items() if isinstance(v, np.ndarray) and v.size}
+        names = sorted(arrs)
+        shared = [(p, q) for i, p in enumerate(names) for q in names[i + 1:] if np.shares_memory(arrs[p], arrs[q])]
+        if not shared:
+            return self.fn(*a, **k)
+        copies = {n: v.copy() for n, v in arrs.items()}
+        before = {n: v.copy() for n, v in arrs.items()}
+        args2 = dict(ba.arguments)
+        args2.update(copies)
+        DEALIAS_COMPARE[0] = False  # nested public kernels run plainly inside the comparison
+        try:
+            self.fn(**args2)
+            res = self.fn(*a, **k)
+        finally:
+            DEALIAS_COMPARE[0] = True
+        for n in names:
+            changed = not np.array_equal(copies[n], before[n], equal_nan=True)
+            if changed and not np.allclose(copies[n], arrs[n], rtol=1e-9, atol=1e-12, equal_nan=True):
+                DEALIAS_FINDINGS.append(f"{self.name}({', '.join(names)}): arguments {shared} share memory and output '{n}' differs from the "
+                                        f"de-aliased call by {float(np.nanmax(np.abs(copies[n] - arrs[n]))):.3g}")
+        return res
+
+    def __getattr__(self, item):
+        return getattr(self.fn, item)
+
+
+DEALIAS_COMPARE = [False]
+DEALIAS_FINDINGS: list = []
+
+
+def patch_public_generators():
+    """spne.gen_* -> generators whose returned callables are PublicKernel objects (undo with unpatch_public_generators)"""
+    import sopht.numeric.eulerian_grid_ops as spne
+
+    for name in list(getattr(spne, "__all__", [])):
+        if not name.startswith("gen_") or name in _PATCHED:
+            continue
+        orig = getattr(spne, name)
+
+        def make(orig=orig, name=name):
+            def gen(*a, **k):
+                f = orig(*a, **k)
+                return PublicKernel(f, name) if callable(f) and not isinstance(f, PublicKernel) else f
+
+            gen.__name__ = name
+            gen.__wrapped__ = orig
+            return gen
+
+        _PATCHED[name] = orig
+        setattr(spne, name, make())
+
+
+def unpatch_public_generators():
+    import sopht.numeric.eulerian_grid_ops as spne
+
+    for name, orig in _PATCHED.items():
+        setattr(spne, name, orig)
+    _PATCHED.clear()
